@@ -471,7 +471,10 @@ class FileStore(Store):
 
     def store(self, key, data, metadata):
         self.path_for_key(key).parent.mkdir(parents=True, exist_ok=True)
-        self.path_for_key(key).write_bytes(data)
+        self.metadata_path_for_key(key).parent.mkdir(parents=True, exist_ok=True)
+        temporary_path = self.metadata_path_for_key(key).with_suffix(".tmp")
+        temporary_path.write_bytes(data)
+        temporary_path.replace(self.path_for_key(key))
         self.store_metadata(
             key, self.finalize_metadata(metadata, key=key, is_dir=False, data=data)
         )
